@@ -7,6 +7,12 @@ pub fn collect(
     decls: &mut asm::ItemDecls)
     -> Result<(), ()>
 {
+    // The arm that an unresolved `#if` selects
+    // can still bring in more bank definitions
+    let has_pending_ifs = ast.nodes
+        .iter()
+        .any(|n| matches!(n, asm::AstAny::DirectiveIf(_)));
+
     for any_node in &mut ast.nodes
     {
         let asm::AstAny::DirectiveBank(ref mut node) = any_node
@@ -17,6 +23,14 @@ pub fn collect(
             continue;
         }
         
+        if has_pending_ifs &&
+            decls.bankdefs.try_get_by_name(
+                &util::SymbolContext::new_global(),
+                0,
+                &[node.name.as_str()]).is_none()
+        {
+            continue;
+        }
 
         let item_ref = decls.bankdefs.get_by_name_global(
             report,
